@@ -164,6 +164,9 @@ func runScenario(r *vrun.Run, sc scenario, keep bool) *result {
 					go func() {
 						defer owg.Done()
 						ol := w.NewLock(name, false)
+						if sc.Index%3 == 2 {
+							ol = w.NewLockSpelt(name, false, 1+i%2)
+						}
 						for {
 							select {
 							case <-stop:
@@ -240,7 +243,11 @@ func runScenario(r *vrun.Run, sc scenario, keep bool) *result {
 				go func() {
 					defer wg.Done()
 					override := kind == 3
+					// in a third of the scenarios the observers spell the lock id with blanks around it (same lock)
 					ol := w.NewLock(name, override)
+					if sc.Index%3 == 2 {
+						ol = w.NewLockSpelt(name, override, 1+i%2)
+					}
 					for {
 						select {
 						case <-stop:
